@@ -150,7 +150,7 @@ pub struct RcCase {
 }
 
 pub fn strategy(_t: Tier) -> BoxedStrategy<RcCase> {
-    (0usize..5, 0usize..4, any::<u64>(), prop_oneof![4 => 0.8f64..1.1, 1 => 0.3f64..0.8, 1 => 1.1f64..2.0], prop_oneof![Just(0usize), Just(1), Just(5), Just(20), Just(50)], 1usize..=3)
+    (0usize..5, 0usize..4, any::<u64>(), prop_oneof![4 => 0.8f64..1.1, 1 => 0.3f64..0.8, 1 => 1.1f64..2.0, 1 => 0.05f64..0.2], prop_oneof![Just(0usize), Just(1), Just(5), Just(20), Just(50)], 1usize..=3)
         .prop_map(|(code, codeword, noise_seed, sigma, limit, frames)| RcCase { code, codeword, noise_seed, sigma: Fx(sigma), limit, frames })
         .boxed()
 }
